@@ -13,7 +13,7 @@ CONSTANTS MaxLeaves,      (* 3 | 4 | 5 leaves in structural trees *)
           BaseMode,       (* 0: few base cases for edits; 1: many *)
           Depth3Samples,  (* number of sampled depth-3 trees per root operator (0 = none) *)
           CP,             (* token text -> code points, for every text the generator can emit *)
-          SepCP           (* code points of the five separators, the leading and the trailing comment *)
+          SepCP           (* code points of the six separators (the sixth a comment glued to a symbol), the leading and the trailing comment *)
 VARIABLES stage, shard, case, ast
 vars == <<stage, shard, case, ast>>
 
@@ -308,11 +308,11 @@ MultiplierOnlyScales == (stage = 2 /\ case.kind = "chain") =>
    plus comment lines around) *)
 SepFor(toks, i, sep) == IF sep <= 4 THEN SepCP[sep + 1]
                         ELSE IF sep = 5 THEN (IF toks[i] \in Punct \/ toks[i - 1] \in Punct THEN <<>> ELSE <<32>>)
-                        ELSE SepCP[((i - 1) % 5) + 1]
+                        ELSE SepCP[((i - 1) % 6) + 1]
 RECURSIVE JoinFrom(_, _, _)
 JoinFrom(toks, i, sep) == IF i > Len(toks) THEN <<>>
                           ELSE (IF i > 1 THEN SepFor(toks, i, sep) ELSE <<>>) \o CP[toks[i]] \o JoinFrom(toks, i + 1, sep)
-JoinCP(toks, sep) == IF sep = 6 THEN SepCP[6] \o JoinFrom(toks, 1, sep) \o SepCP[7] ELSE JoinFrom(toks, 1, sep)
+JoinCP(toks, sep) == IF sep = 6 THEN SepCP[7] \o JoinFrom(toks, 1, sep) \o SepCP[8] ELSE JoinFrom(toks, 1, sep)
 SeparatorsIrrelevant == (stage = 2 /\ (case.kind # "ast" \/ case.sep # 0)) =>
     \A f \in DOMAIN case.files : \A sep \in {case.sep, 6} :
         Tokenise(JoinCP(case.files[f], sep)) = [i \in DOMAIN case.files[f] |-> CP[case.files[f][i]]]
